@@ -190,13 +190,20 @@ func (h *Handler) allocIPOffer(lease *Lease, reqIP netip.Addr) error {
 }
 
 func (h *Handler) freeLeases(now time.Time) error {
+	changed := false
 	for _, lease := range h.table {
 		if lease.State != StateFree && lease.DHCPExpiry.Before(now) {
 			if Logger.IsInfo() {
 				Logger.Msg("freeing lease").Struct(lease).Write()
 			}
+			if lease.State == StateAllocated {
+				changed = true
+			}
 			lease.State = StateFree
 		}
+	}
+	if changed {
+		h.saveConfig(h.filename) // expired leases must not come back after a restart
 	}
 	return nil
 }
